@@ -161,6 +161,8 @@ package signedexchange
 //@   may_panic
 //@   requires l != nil
 //@   ensures[rfc7234-section-3] result <==> cacheableB3(e)
+//@   ensures[status-must-be-understood] result ==> statusText(e.ResponseStatus) != ""
+//@   ensures[no-store-private-refused] result ==> !has(parseCacheControlDirectives(hdrGet(e.ResponseHeaders, "Cache-Control")), "no-store") && !has(parseCacheControlDirectives(hdrGet(e.ResponseHeaders, "Cache-Control")), "private")
 //@   assigns nothing
 
 // ---- the signed message (C08, C01) --------------------------------------------
